@@ -23,6 +23,7 @@ Inductive item16 :=
 | Block (k : ekind) (ib ie : string) (body : list uline)     (* ib / ie : what precedes the begin / end tag on its line (indentation) *)
 | SigBlock (ib ie : string) (body : list uline)
 | TransBlock (ib ie : string) (body : list titem)             (* per state > per event > per transition, nested *)
+| EvBlock (ib ie : string) (body : list uline)   (* a per-event block whose body may mention <<<SIGNATURE>>> / <<<SIGNATUREWITHDEFAULTS>>> *)
 | MsgBlock (ib ie sfx : string) (body : list uline)   (* a per-message block whose body may mention <<<MSGID>>>; sfx: what follows the end tag on its line *)
 | InitLine (l : uline)                    (* a line outside blocks that mentions the initial state: <<<STATE_0>>> / <<<state_0>>> *)
 | UserLine (l : uline)                    (* a line outside blocks with user tags <<<name>>> / <<<name=default>>> (C17_usertag) *)
@@ -65,6 +66,7 @@ Definition render_item16 (it : item16) : list string :=
   | SigBlock ib ie body => (ib ++ begin_line "PER_ACTION_SIGNATURE")%string :: map render_line body ++ [(ie ++ end_line "PER_ACTION_SIGNATURE")%string]
   | TransBlock ib ie body =>
       (ib ++ begin_line "PER_STATETRANSITION")%string :: flat_map render_titem body ++ [(ie ++ end_line "PER_STATETRANSITION")%string]
+  | EvBlock ib ie body => (ib ++ begin_line "PER_EVENT")%string :: map render_line body ++ [(ie ++ end_line "PER_EVENT")%string]
   | MsgBlock ib ie sfx body =>
       (ib ++ begin_line "PER_MSG")%string :: map render_line body ++ [(ie ++ "<<<PER_MSG_END>>>" ++ sfx ++ nl_str)%string]
   | InitLine l => [render_line l]
@@ -122,7 +124,9 @@ Record elements := {
   (* the user-tag assignment of the generation (a dictionary name -> str(value)) *)
   el_user : list (string * string);
   (* message name -> str(MessageTypeID) *)
-  el_msgids : list (string * string) }.
+  el_msgids : list (string * string);
+  (* INTERFACE ORACLE: event name -> (get_event_signature(name, False), get_event_signature(name, True)) as the Language* classes print them *)
+  el_evsigs : list (string * (string * string)) }.
 
 Fixpoint add_missing (l extra : list string) : list string :=
   match extra with
@@ -152,7 +156,7 @@ Definition elements_of (t : table) (structs protos msgs : list string) : element
   {| el_states := TTable.states t; el_events := add_missing (TTable.events t) structs;
      el_actions := TTable.actions t; el_guards := TTable.guards t; el_sigs := TTable.actionsignatures t;
      el_structs := structs; el_protos := protos; el_msgs := msgs; el_tps := tps_of t; el_first := TTable.getfirststate t;
-     el_rows := map (fun r => [r_src r; r_ev r; r_next r; r_act r; r_guard r]) t; el_user := []; el_msgids := [] |}.
+     el_rows := map (fun r => [r_src r; r_ev r; r_next r; r_act r; r_guard r]) t; el_user := []; el_msgids := []; el_evsigs := [] |}.
 
 Definition items_of (e : elements) (k : ekind) : list string :=
   match k with
@@ -166,6 +170,20 @@ Definition table_of_kind (k : ekind) : string -> nat -> list (string * string) :
 (* a per-message block with ids: the message's names, counters, and <<<MSGID>>> = its id as the interface prints it *)
 Definition msg_table (ids : list (string * string)) (name : string) (i : nat) : list (string * string) :=
   proto_table name i ++ [("MSGID", EngineSM.idof ids name)].
+
+(* a per-event block with the event's signature: a line mentions at most one of the two signature tags; the tag becomes the signature the
+   interface prints for the event (with or without defaults), and the parenthesised groups of such a line are cleaned of the ", " an empty
+   signature leaves (EngineSM.paren_clean: re.sub over "(...)" groups) *)
+Definition sig_kind (l : uline) : option bool :=
+  if mentions "SIGNATUREWITHDEFAULTS" l then Some true else if mentions "SIGNATURE" l then Some false else None.
+Definition sig_key (d : bool) : string := if d then "SIGNATUREWITHDEFAULTS" else "SIGNATURE".
+Definition ref_ev_line (sigs : list (string * (string * string))) (name : string) (i : nat) (l : uline) : string :=
+  match sig_kind l with
+  | None => render_line (map (subst16 (elem_table name i)) l)
+  | Some d => EngineSM.paren_clean (render_line (map (subst16 (elem_table name i ++ [(sig_key d, EngineSM.sigof sigs name d)])) l))
+  end.
+Definition ref_ev_block (sigs : list (string * (string * string))) (items : list string) (body : list uline) : list string :=
+  flat_map (fun ix => map (ref_ev_line sigs (snd ix) (fst ix)) body) (enumerate_from 0 items).
 
 (* filterInitialState: the two spellings of the initial state's name *)
 Definition init_table (first : string) : list (string * string) := [("STATE_0", first); ("state_0", camel first)].
@@ -216,6 +234,7 @@ Definition ref_item16 (e : elements) (it : item16) : list string :=
   | Block k _ _ body => ref_block (table_of_kind k) (items_of e k) body
   | SigBlock _ _ body => ref_block sig_table (el_sigs e) body
   | TransBlock _ _ body => ref_trans (el_tps e) body
+  | EvBlock _ _ body => ref_ev_block (el_evsigs e) (el_events e) body
   | MsgBlock _ _ _ body => ref_block (msg_table (el_msgids e)) (el_msgs e) body
   | InitLine l => [render_line (map (subst16 (init_table (el_first e))) l)]
   | UserLine l => [ref_line (el_user e) l]
@@ -227,10 +246,15 @@ Definition ref_item16 (e : elements) (it : item16) : list string :=
 Definition mid_item16 (e : elements) (it : item16) : list string :=
   match it with UserLine l => [render_line l] | _ => ref_item16 e it end.
 
+Definition with_evsigs (sigs : list (string * (string * string))) (e : elements) : elements :=
+  {| el_states := el_states e; el_events := el_events e; el_actions := el_actions e; el_guards := el_guards e; el_sigs := el_sigs e;
+     el_structs := el_structs e; el_protos := el_protos e; el_msgs := el_msgs e; el_tps := el_tps e; el_first := el_first e;
+     el_rows := el_rows e; el_user := el_user e; el_msgids := el_msgids e; el_evsigs := sigs |}.
+
 Definition with_user (a : list (string * string)) (e : elements) : elements :=
   {| el_states := el_states e; el_events := el_events e; el_actions := el_actions e; el_guards := el_guards e; el_sigs := el_sigs e;
      el_structs := el_structs e; el_protos := el_protos e; el_msgs := el_msgs e; el_tps := el_tps e; el_first := el_first e;
-     el_rows := el_rows e; el_user := a; el_msgids := el_msgids e |}.
+     el_rows := el_rows e; el_user := a; el_msgids := el_msgids e; el_evsigs := el_evsigs e |}.
 
 Definition ref16 (e : elements) (t : template16) : string :=
   concat_lines (map tab4 (flat_map (ref_item16 e) t)).
